@@ -182,6 +182,16 @@ func (p *Pool) Release(ip net.IP) {
 	}
 }
 
+// IsAllocatedTo reports whether ip is the address this pool currently holds
+// for the given MAC address (offered or leased).
+func (p *Pool) IsAllocatedTo(mac net.HardwareAddr, ip net.IP) bool {
+	p.mu.Lock()
+	defer p.mu.Unlock()
+
+	allocatedIP, exists := p.allocated[mac.String()]
+	return exists && allocatedIP.Equal(ip)
+}
+
 // Contains checks if an IP is within this pool
 func (p *Pool) Contains(ip net.IP) bool {
 	return p.Network.Contains(ip)
